@@ -15,7 +15,8 @@ RULE = ("JSON-expressible documents rendered as one JSON text (valid YAML flow s
         "characters, non-ASCII, '$', '#', ': ', text that looks like a number / boolean / null / YAML indicator); integers incl. 0, "
         "negative, +-2^31, +-2^53 (beyond 2^53 the by-value oracle is off: float64 cannot hold them), floats (fractions, exponents, "
         "-0.0, denormals, 1e308), booleans, nulls, empty containers; (b) (type, configuration) pairs of the C04 type generator, valid "
-        "or with one fault, so that the same text is unpacked into a typed struct. Each text goes through the three loaders in memory "
+        "or with one fault (with PathSep often respelled with dotted names), and structs of integer/float fields, slices and maps fed "
+        "with odd integers up to 2^53-1, so that the same text is unpacked into a typed struct. Each text goes through the three loaders in memory "
         "and through *WithFile from a temporary directory, with no options / PathSep / VarExp / both. Oracle: all loaders accept the "
         "text; the generic views are equal with numbers compared by value; typed results are identical with numbers held by interface{} fields compared by value (value or failure); each "
         "*WithFile result equals its in-memory counterpart; a typed failure about a setting names the file; a missing file is an "
@@ -34,6 +35,8 @@ STR18 = ["", "x", "hello world", " lead", "trail ", "q\"uote", "back\\slash", "t
          "- dash", "[1, 2]", "{a: 1}", "123", "-7", "1.5", "1e3", "0x10", "true", "false", "null", "~", "yes", "no", "on", "off", "$", "${a}", "$${a}", "${a:dflt}",
          "${nope}", "a,b", "'single'", "&anchor", "*alias", "!tag", "%percent", "@at", "`tick`", "|", ">", "?", " nbsp", " ls", "\x7f", "<<"]
 INTS18 = [0, 1, -1, 7, 255, 65536, 2**31 - 1, -2**31, 2**31, 2**53 - 1, -(2**53 - 1), 2**53, 123456789, 10**15]
+EDGE18 = [0, 1, -1, 3, -3, 2**31 - 1, -2**31, 2**32 + 1, 2**52 + 1, -(2**52 + 1), 2**52 + 3, 4503599627370497, 2**53 - 1, -(2**53 - 1), 2**53 - 3,
+          6755399441055745, 9007199254740989, 123456789012345, 999999999999999]
 BIGINTS18 = [2**53 + 1, 2**62, 2**63 - 1, -2**63, 10**18 + 1]
 FLOATS18 = [0.5, -0.25, 1.5, 3.0, 1e3, 1e-7, 123.456, 1e21, 1e22, 5e-324, 1.7976931348623157e308, -0.0, 0.1, 2.5e-5, 4.0]
 
@@ -143,8 +146,33 @@ def gen(rng, tier):
                     cfg = TG.replace_at(cfg, path, repl)
             doc = ints_to_i(cfg)
             opts = rng.pick([[], [opt("PathSep", ".")]])
+            if opts and rng.chance(0.6):
+                # the same settings spelled with dotted names: the objects in between are created by the path code
+                from . import c05
+                fk = set()
+                doc = c05.flatten_partial(rng, doc, ".", fk)
+                if fk: stats.add("dotted")
             stats.add("typed")
             if fault: stats.add("fault:" + fault)
+        elif rng.chance(0.25):
+            # integers at the edges of what float64 holds exactly, into typed integer / float fields
+            typed = True
+            kinds = ["int", "int64", "uint64", "float64", "int32", "uint"]
+            fs, kv = [], []
+            for j, nm in enumerate(TG.FIELD_NAMES[:2 + rng.below(3)]):
+                k = rng.pick(kinds)
+                r = rng.below(4)
+                pool = [x for x in EDGE18 if (x >= 0 or not k.startswith("u")) and (abs(x) < 2**31 or k != "int32")]
+                if r == 0:
+                    fs.append({"n": nm, "tag": "", "v": "", "ty": TG.T("slice", e=TG.T(k))}); kv.append((nm.lower(), A([I(rng.pick(pool)) for _ in range(1 + rng.below(3))])))
+                elif r == 1:
+                    fs.append({"n": nm, "tag": "", "v": "", "ty": TG.T("map", e=TG.T(k))}); kv.append((nm.lower(), M([("k%d" % q, I(rng.pick(pool))) for q in range(1 + rng.below(3))])))
+                else:
+                    fs.append({"n": nm, "tag": "", "v": "", "ty": TG.T(k)}); kv.append((nm.lower(), I(rng.pick(pool))))
+            ty = TG.T("struct", f=fs)
+            doc = M(kv)
+            opts = rng.pick([[], [opt("PathSep", ".")]])
+            stats.add("typed"); stats.add("edge-int")
         else:
             ty = None
             doc = rand_doc(rng, 1 + rng.below(4 if tier == "quick" else 5), stats, top=True)
